@@ -267,6 +267,7 @@ def main():
         return replay(pid, spec, a.replay)
 
     broken = []      # list of dicts: what no longer checks
+    skeleton_changed = None
     with Lock("build.lock"):
         ok, out = regenerate()
         if not ok:
@@ -279,7 +280,13 @@ def main():
         if spec.get("skeleton"):
             rc_sk, out_sk = sh([sys.executable, os.path.join(ROOT, "tools", "skeleton.py"), "check", ",".join(spec["skeleton"])])
             if rc_sk != 0:
-                broken.append({"kind": "skeleton-tie", "message": out_sk[-1200:]})
+                # the hand-transcribed functions were edited.  That alone says nothing about the property (a
+                # harmless rewrite changes the skeleton too): the correspondence is re-run at the search scale
+                # below, and only a disagreement or a monitor failure found there counts.  VERIF_SKELETON=gate
+                # restores the strict reading (an edited skeleton is itself a broken tie).
+                skeleton_changed = out_sk[-1200:]
+                if os.environ.get("VERIF_SKELETON", "advisory") == "gate":
+                    broken.append({"kind": "skeleton-tie", "message": skeleton_changed})
         # model + checkers first (must build even when a proof is broken)
         okm, outm = coq_make([f + "o" for f in spec["run_files"]])
         if not okm:
@@ -363,11 +370,18 @@ def main():
         violations.append((path, ""))
     # (b) something no longer checks: targeted search for a failing input
     search = None
-    if broken and not violations and harness_ok:
+    if (broken or skeleton_changed) and not violations and harness_ok:
         sscale = scale * spec.get("search_factor", 20)
         sc, scodes, _, sprob = run_batch(pid, spec, seed + 1000003, sscale, "search")
         sres = classify(pid, spec, sc, scodes, known)
-        search = {"cases": len(sc), "found": len(sres["viol"])}
+        search = {"cases": len(sc), "found": len(sres["viol"]), "model_impl_disagreements": len(sres["corr"]),
+                  "because": "broken obligation" if broken else "skeleton of a hand-transcribed function changed"}
+        if not broken:
+            if sres["corr"]:
+                broken.append({"kind": "correspondence", "message": "%d case(s) of the escalated run where model and implementation differ (skeleton changed: %s)" % (len(sres["corr"]), skeleton_changed[:300]),
+                               "cases": [sc[i][1][:400] for i in sres["corr"][:5]]})
+            if sres["unevaluated"] or sprob:
+                broken.append({"kind": "correspondence-run", "message": "escalated run incomplete: %s" % (sprob[:2] or sres["unevaluated"])})
         for i in sres["viol"][:1]:
             path = write_replay(pid, seed + 1000003, i, {"property": pid, "kind": "monitor-false-on-implementation (found by the search after a proof obligation broke)",
                                                           "seed": seed + 1000003, "scale": sscale, "bin": sc[i][2], "index": i,
@@ -381,7 +395,7 @@ def main():
     kf_lines = PROPS_MOD.known_lines(pid, spec, known, cases, codes, res, ROOT)
 
     wall = time.time() - t0
-    evidence(pid, spec, tier, seed, wall, thms_all, thms_ok, broken, cases, codes, res, notes, axioms_used, violations, kf_lines, search)
+    evidence(pid, spec, tier, seed, wall, thms_all, thms_ok, broken, cases, codes, res, notes, axioms_used, violations, kf_lines, search, skeleton_changed)
     for l in kf_lines: print(l)
     for path, suffix in violations:
         print("VIOLATION property=%s replay=%s%s" % (pid, path, suffix))
@@ -418,7 +432,7 @@ def classify(pid, spec, cases, codes, known):
     return {"viol": viol, "corr": corr, "skipped": skipped, "known": knownhits, "unevaluated": uneval}
 
 
-def evidence(pid, spec, tier, seed, wall, thms_all, thms_ok, broken, cases, codes, res, notes, axioms, violations, kf_lines, search):
+def evidence(pid, spec, tier, seed, wall, thms_all, thms_ok, broken, cases, codes, res, notes, axioms, violations, kf_lines, search, skeleton_changed=None):
     os.makedirs(os.path.join(ROOT, "evidence"), exist_ok=True)
     ties = spec.get("ties", [])
     tie_broken = any(b["kind"] in ("translator",) for b in broken)
@@ -453,7 +467,7 @@ def evidence(pid, spec, tier, seed, wall, thms_all, thms_ok, broken, cases, code
             "distribution_notes": notes[:50],
             "model_impl_disagreements": len(res["corr"]), "monitor_failures": len(res["viol"]),
             "known_finding_hits": len(res["known"]), "known_finding_lines": kf_lines,
-            "broken": broken, "failing_input_search": search, "coqchk": spec.get("_coqchk"),
+            "broken": broken, "failing_input_search": search, "skeleton_changed": skeleton_changed, "coqchk": spec.get("_coqchk"),
             "explanation": spec.get("explanation", ""),
         },
         "assumptions": spec.get("assumptions", []),
